@@ -1,5 +1,7 @@
-(* Layer 4 proofs: non-interference of the printer for leaf operands.
-   Two calls Sprintf(f, a1...) and Sprintf(f, a2...) whose operands are values of basic kinds
+(* Layer 4 proofs: non-interference of the printer for operands printed by reflection: leaves
+   and trees of slices, arrays, structs (exported or not), maps (keys shared) and interface
+   slots over leaves ([vrel]); container types not declared safe.
+   Two calls Sprintf(f, a1...) and Sprintf(f, a2...) whose leaves are values of basic kinds
    (bool, integers, strings of any named or unnamed type; floats and nil held equal) that differ
    only in unsafe content - integers other than 0 and 10 against each other, strings position
    by position (equal bytes, or ASCII bytes other than line feed on both sides), operands of
@@ -52,6 +54,65 @@ Proof.
   intros (_ & _ & [-> | (Hs & Hr & _)]) H; [reflexivity|]. rewrite Hs, Hr in H. discriminate.
 Qed.
 
+(* trees: slices, arrays, structs, maps (keys shared) and interface slots over related leaves;
+   container types are not declared safe *)
+Inductive vrel : value -> value -> Prop :=
+| vr_leaf v1 v2 : lrel v1 v2 -> vrel v1 v2
+| vr_slice t n es1 es2 : treg t = false -> tsv t = false -> Forall2 vrel es1 es2 -> vrel (VSlice t n es1) (VSlice t n es2)
+| vr_array t es1 es2 : treg t = false -> tsv t = false -> Forall2 vrel es1 es2 -> vrel (VArray t es1) (VArray t es2)
+| vr_struct t fs1 fs2 : treg t = false -> tsv t = false ->
+    Forall2 (fun f1 f2 => fst f1 = fst f2 /\ vrel (snd f1) (snd f2)) fs1 fs2 -> vrel (VStruct t fs1) (VStruct t fs2)
+| vr_map t n kvs1 kvs2 : treg t = false -> tsv t = false ->
+    Forall2 (fun a b => fst a = fst b /\ leafish (fst a) = true /\ vrel (snd a) (snd b)) kvs1 kvs2 -> vrel (VMap t n kvs1) (VMap t n kvs2)
+| vr_iface_nil tn : vrel (VIface tn None) (VIface tn None)
+| vr_iface tn a b : vrel a b -> vrel (VIface tn (Some a)) (VIface tn (Some b)).
+
+Lemma vrel_leaf_inv v1 v2 : vrel v1 v2 -> leafish v1 = true -> lrel v1 v2.
+Proof. intros H L. inversion H; subst; try discriminate. assumption. Qed.
+Lemma vrel_leafish v1 v2 : vrel v1 v2 -> leafish v1 = leafish v2.
+Proof. intros H. inversion H; subst; try reflexivity. destruct H0 as (-> & -> & _). reflexivity. Qed.
+
+(* values printed by reflection only: no method, no wrapper *)
+Definition vshape (v : value) : bool :=
+  match v with
+  | VNil | VBool _ _ | VInt _ _ | VUint _ _ | VFloat _ _ _ | VStr _ _
+  | VSlice _ _ _ | VArray _ _ | VStruct _ _ | VMap _ _ _ | VIface _ _ => true
+  | _ => false
+  end.
+Lemma vrel_shape v1 v2 : vrel v1 v2 -> vshape v1 = true /\ vshape v2 = true.
+Proof.
+  intros H. inversion H; subst; try (split; reflexivity).
+  destruct H0 as (L1 & L2 & _). destruct v1, v2; try discriminate; split; reflexivity.
+Qed.
+
+Lemma vrel_tinfo v1 v2 : vrel v1 v2 -> tinfo_of v1 = tinfo_of v2 /\ type_name v1 = type_name v2 /\
+  is_safe_value v1 = is_safe_value v2 /\ is_registered v1 = is_registered v2 /\ is_basic v1 = is_basic v2 /\
+  is_string_kind v1 = is_string_kind v2 /\ is_nil_ptr v1 = is_nil_ptr v2.
+Proof. intros H. inversion H; subst; try (repeat split; reflexivity). now apply lrel_tinfo. Qed.
+
+Lemma vrel_safe_eq v1 v2 : vrel v1 v2 -> (is_safe_value v1 || is_registered v1) = true -> v1 = v2.
+Proof.
+  intros H E. inversion H; subst; try (now apply lrel_safe_eq);
+    unfold is_safe_value, is_registered in E; cbn [tinfo_of] in E;
+    try match goal with Hr : treg _ = false, Hs : tsv _ = false |- _ => rewrite Hr, Hs in E end; try discriminate.
+  all: cbn in E; discriminate.
+Qed.
+
+Lemma vrel_safe_leaf v1 v2 : vrel v1 v2 -> (is_safe_value v1 || is_registered v1) = true -> leafish v1 = true.
+Proof.
+  intros H E. inversion H; subst; try (destruct H0 as (L & _); exact L);
+    unfold is_safe_value, is_registered in E; cbn [tinfo_of] in E;
+    try match goal with Hr : treg _ = false, Hs : tsv _ = false |- _ => rewrite Hr, Hs in E end; try discriminate.
+  all: cbn in E; discriminate.
+Qed.
+
+(* a leaf, or an interface slot holding one: what can be printed under a safe override *)
+Definition lfs (v : value) : bool :=
+  leafish v || match v with VIface _ (Some d) => leafish d | _ => false end.
+Lemma lfs_leaf v : leafish v = true -> lfs v = true.
+Proof. intros H. unfold lfs. now rewrite H. Qed.
+Definition leaf_opt (a : option value) : Prop := match a with Some v => lfs v = true | None => True end.
+
 Definition orel {A} (R : A -> A -> Prop) (a b : option A) : Prop :=
   match a, b with Some x, Some y => R x y | None, None => True | _, _ => False end.
 
@@ -68,12 +129,15 @@ Record NB (s1 s2 : pst) : Prop := mkNB {
   nb_err : erroring s1 = erroring s2;
   nb_we : wrapErrs s1 = wrapErrs s2;
   nb_wd : wrappedErr s1 = None /\ wrappedErr s2 = None;
-  nb_arg : orel lrel (parg s1) (parg s2);
-  nb_val : orel (fun a b => lrel (fst a) (fst b) /\ snd a = snd b) (pval s1) (pval s2)
+  nb_arg : orel vrel (parg s1) (parg s2);
+  nb_val : orel (fun a b => vrel (fst a) (fst b) /\ snd a = snd b) (pval s1) (pval s2)
 }.
 
 (* inside a safe override (SafeValue operand) the two runs print the same value *)
-Definition SE (s1 s2 : pst) : Prop := povr s1 = OvrSafe -> parg s1 = parg s2 /\ pval s1 = pval s2.
+Definition SE (s1 s2 : pst) : Prop :=
+  povr s1 = OvrSafe ->
+  parg s1 = parg s2 /\ leaf_opt (parg s1) /\
+  (parg s1 = None -> pval s1 = pval s2 /\ leaf_opt (option_map fst (pval s1))).
 
 (* the calls appended by the two runs are related *)
 Definition seg (s1 s1' s2 s2' : pst) : Prop :=
@@ -343,8 +407,8 @@ Proof. exact (ubody_rel g1 g2). Qed.
 (* ---------- related calls of the evaluator ---------- *)
 Definition crel (c1 c2 : call) : Prop :=
   match c1, c2 with
-  | CPrintArg v1 b1, CPrintArg v2 b2 => b1 = b2 /\ lrel v1 v2
-  | CPrintValue v1 b1 d1 ci1, CPrintValue v2 b2 d2 ci2 => b1 = b2 /\ d1 = O /\ d2 = O /\ ci1 = ci2 /\ lrel v1 v2
+  | CPrintArg v1 b1, CPrintArg v2 b2 => b1 = b2 /\ vrel v1 v2
+  | CPrintValue v1 b1 d1 ci1, CPrintValue v2 b2 d2 ci2 => b1 = b2 /\ d1 = d2 /\ ci1 = ci2 /\ vrel v1 v2
   | CBadVerb b1, CBadVerb b2 => b1 = b2
   | CHandleMethods b1, CHandleMethods b2 => b1 = b2
   | _, _ => False
@@ -352,8 +416,8 @@ Definition crel (c1 c2 : call) : Prop :=
 (* what must be known when the override is Safe: the same value is printed *)
 Definition cP (c1 c2 : call) : Prop :=
   match c1, c2 with
-  | CPrintArg v1 _, CPrintArg v2 _ => v1 = v2
-  | CPrintValue v1 _ _ _, CPrintValue v2 _ _ _ => v1 = v2
+  | CPrintArg v1 _, CPrintArg v2 _ => v1 = v2 /\ lfs v1 = true
+  | CPrintValue v1 _ _ _, CPrintValue v2 _ _ _ => v1 = v2 /\ lfs v1 = true
   | _, _ => True
   end.
 Definition rec_ok (rec : recT) : Prop := forall c1 c2, crel c1 c2 -> JS (HS (cP c1 c2)) eq (rec c1) (rec c2).
@@ -536,8 +600,8 @@ Section Rec.
       by (eapply J_bind; [apply J_wbyte | intros; apply J_set_erroring]).
     destruct (parg a) as [a1|] eqn:Ea, (parg b) as [a2|] eqn:Eb; cbn [orel] in Ha; try contradiction.
     - (* the operand as an interface value *)
-      destruct (lrel_tinfo _ _ Ha) as (_ & <- & _).
-      assert (JS (HS (a1 = a2)) any
+      destruct (vrel_tinfo _ _ Ha) as (_ & <- & _).
+      assert (JS (HS (a1 = a2 /\ lfs a1 = true)) any
                 ((w1 (WS (type_name a1)) ;;; wbyte 61 ;;; rec (CPrintArg a1 118) ;;; ret tt) ;;; wbyte 41 ;;; modify (fun s => set_erroring s false))
                 ((w1 (WS (type_name a1)) ;;; wbyte 61 ;;; rec (CPrintArg a2 118) ;;; ret tt) ;;; wbyte 41 ;;; modify (fun s => set_erroring s false))) as Hk.
       { eapply JS_bind; [|intros; exact Htail].
@@ -546,20 +610,20 @@ Section Rec.
         eapply JS_bind; [|intros; now apply J_ret].
         eapply JS_weaken; [|apply (Hrec (CPrintArg a1 118) (CPrintArg a2 118)); split; [reflexivity | exact Ha]].
         intros ? ? H. exact H. }
-      apply Hk; auto. intros Ho. destruct (S Ho) as [E _]. rewrite Ea, Eb in E. now injection E.
+      apply Hk; auto. intros Ho. destruct (S Ho) as (E & L & _). rewrite Ea, Eb in E. rewrite Ea in L. split; [now injection E | exact L].
     - (* the operand as a reflect.Value *)
       destruct (pval a) as [[v1 c1]|] eqn:Va, (pval b) as [[v2 c2]|] eqn:Vb; cbn [orel fst snd] in Hv; try contradiction.
-      + destruct Hv as [Hl <-]. destruct (lrel_tinfo _ _ Hl) as (_ & <- & _).
-        assert (JS (HS (v1 = v2)) any
+      + destruct Hv as [Hl <-]. destruct (vrel_tinfo _ _ Hl) as (_ & <- & _).
+        assert (JS (HS (v1 = v2 /\ lfs v1 = true)) any
                   ((w1 (WS (type_name v1)) ;;; wbyte 61 ;;; rec (CPrintValue v1 118 0%nat c1) ;;; ret tt) ;;; wbyte 41 ;;; modify (fun s => set_erroring s false))
                   ((w1 (WS (type_name v1)) ;;; wbyte 61 ;;; rec (CPrintValue v2 118 0%nat c1) ;;; ret tt) ;;; wbyte 41 ;;; modify (fun s => set_erroring s false))) as Hk.
         { eapply JS_bind; [|intros; exact Htail].
           eapply JS_bind_k; [apply J_JS, J_w1 | apply kovr_w1 | intros _ _ _].
           eapply JS_bind_k; [apply J_JS, J_wbyte | apply kovr_wbyte | intros _ _ _].
           eapply JS_bind; [|intros; now apply J_ret].
-          eapply JS_weaken; [|apply (Hrec (CPrintValue v1 118 0%nat c1) (CPrintValue v2 118 0%nat c1)); exact (conj eq_refl (conj eq_refl (conj eq_refl (conj eq_refl Hl))))].
+          eapply JS_weaken; [|apply (Hrec (CPrintValue v1 118 0%nat c1) (CPrintValue v2 118 0%nat c1)); exact (conj eq_refl (conj eq_refl (conj eq_refl Hl)))].
           intros ? ? H. exact H. }
-        apply Hk; auto. intros Ho. destruct (S Ho) as [_ E]. rewrite Va, Vb in E. now injection E.
+        apply Hk; auto. intros Ho. destruct (S Ho) as (_ & _ & E). destruct (E Ea) as [E' L]. rewrite Va, Vb in E'. rewrite Va in L. split; [now injection E' | exact L].
       + assert (J any (wstr "<nil>" ;;; wbyte 41 ;;; modify (fun s => set_erroring s false)) (wstr "<nil>" ;;; wbyte 41 ;;; modify (fun s => set_erroring s false))) as Hk
           by (eapply J_bind; [apply J_wstr | intros; exact Htail]).
         apply Hk; auto.
@@ -569,14 +633,14 @@ Section Rec.
   Lemma J_clear_wrap : J any (modify (fun s => set_wrapErrs (set_wrappedErr s None) false)) (modify (fun s => set_wrapErrs (set_wrappedErr s None) false)).
   Proof. apply J_modify; [nbmod | intros []; reflexivity | intros []; reflexivity]. Qed.
 
-  Lemma leafish_no_methods a : leafish a = true -> is_error a = false.
+  Lemma leafish_no_methods a : vshape a = true -> is_error a = false.
   Proof. destruct a; try discriminate; reflexivity. Qed.
 
   Definition hm_bad (verb : Z) : M bool :=
     modify (fun s => set_wrapErrs (set_wrappedErr s None) false) ;;; rec (CBadVerb verb) ;;; ret true.
 
   Lemma handleMethods_run verb s :
-    match parg s with Some a => leafish a = true | None => True end ->
+    match parg s with Some a => vshape a = true | None => True end ->
     handleMethods rec env verb s =
     if erroring s then (ROk false, s)
     else if verb =? 119 then hm_bad verb s else (ROk false, s).
@@ -592,11 +656,11 @@ Section Rec.
   Qed.
 
   Lemma leafish_arg s1 s2 : NB s1 s2 ->
-    match parg s1 with Some a => leafish a = true | None => True end /\
-    match parg s2 with Some a => leafish a = true | None => True end.
+    match parg s1 with Some a => vshape a = true | None => True end /\
+    match parg s2 with Some a => vshape a = true | None => True end.
   Proof.
     intros N. pose proof (nb_arg _ _ N) as Ha.
-    destruct (parg s1), (parg s2); cbn [orel] in Ha; try contradiction; [|auto]. destruct Ha as (? & ? & _). auto.
+    destruct (parg s1), (parg s2); cbn [orel] in Ha; try contradiction; [|auto]. now apply vrel_shape.
   Qed.
 
   Lemma JhandleMethods verb : J eq (handleMethods rec env verb) (handleMethods rec env verb).
@@ -662,13 +726,117 @@ Section Rec.
   Lemma lrel_nil_iff v1 v2 : lrel v1 v2 -> (v1 = VNil <-> v2 = VNil).
   Proof. intros (_ & _ & [-> | (_ & _ & H)]); [tauto|]. destruct v1, v2; try contradiction; split; discriminate. Qed.
 
-  Lemma Jprint_kind fuel v1 v2 verb depth ci : lrel v1 v2 ->
+  Lemma Jprint_kind_leaf fuel v1 v2 verb depth ci : lrel v1 v2 ->
     JS (HS (v1 = v2)) any (print_kind fuel rec env v1 verb depth ci) (print_kind fuel rec env v2 verb depth ci).
   Proof.
     intros Hl. destruct (value_eq_nil v1) as [-> | Hn1].
     - assert (v2 = VNil) as -> by (now apply (lrel_nil_iff _ _ Hl)). destruct fuel; cbn [print_kind]; apply J_JS, J_wstr.
     - assert (v2 <> VNil) as Hn2 by (intros E; apply Hn1; now apply (lrel_nil_iff _ _ Hl)).
       destruct Hl as (L1 & L2 & Hc) eqn:El. rewrite !print_kind_leaf by assumption. apply Jleaf_fmt. exact (conj L1 (conj L2 Hc)).
+  Qed.
+
+  (* ---------- containers: the same punctuation, related elements ---------- *)
+  (* HS False: the override is not Safe (containers are never declared safe) *)
+  Lemma kovr_ret {A} (a : A) : kovr (ret a). Proof. intros s. reflexivity. Qed.
+  Lemma kovr_getf : kovr getf. Proof. intros s. reflexivity. Qed.
+
+  Lemma Jelem e1 e2 verb depth ci : vrel e1 e2 ->
+    JS (HS False) eq (rec (CPrintValue e1 verb depth ci)) (rec (CPrintValue e2 verb depth ci)).
+  Proof.
+    intros He. eapply JS_weaken; [|apply (Hrec (CPrintValue e1 verb depth ci) (CPrintValue e2 verb depth ci)); exact (conj eq_refl (conj eq_refl (conj eq_refl He)))].
+    intros ? ? H Ho. destruct (H Ho).
+  Qed.
+
+  Lemma Jfor_elems (sep : M unit) verb depth ci : J any sep sep -> kovr sep ->
+    forall es1 es2, Forall2 vrel es1 es2 -> forall first,
+    JS (HS False) any (for_elems rec sep first es1 verb depth ci) (for_elems rec sep first es2 verb depth ci).
+  Proof.
+    intros Hsep Hks es1 es2 Hf. induction Hf as [|e1 e2 r1 r2 He Hr IH]; intros first; cbn [for_elems]; [apply J_JS; now apply J_ret|].
+    eapply (JS_bind_k False any any); [| |intros _ _ _].
+    - destruct first; apply J_JS; [now apply J_ret | exact Hsep].
+    - destruct first; [apply kovr_ret | exact Hks].
+    - eapply JS_bind_k; [eapply JS_weaken; [|apply (Jelem e1 e2 verb (S depth) ci He)]; intros ? ? H; exact H | apply Hkrec | intros _ _ _; apply IH].
+  Qed.
+
+  Lemma Jfor_kvs (sep : M unit) verb depth ci : J any sep sep -> kovr sep ->
+    forall kvs1 kvs2, Forall2 (fun a b => fst a = fst b /\ leafish (fst a) = true /\ vrel (snd a) (snd b)) kvs1 kvs2 -> forall first,
+    JS (HS False) any (for_kvs rec sep first kvs1 verb depth ci) (for_kvs rec sep first kvs2 verb depth ci).
+  Proof.
+    intros Hsep Hks kvs1 kvs2 Hf. induction Hf as [|[k1 x1] [k2 x2] r1 r2 (Ek & Lk & He) Hr IH]; intros first; cbn [for_kvs]; [apply J_JS; now apply J_ret|].
+    cbn [fst snd] in *. subst k2.
+    eapply (JS_bind_k False any any); [| |intros _ _ _].
+    - destruct first; apply J_JS; [now apply J_ret | exact Hsep].
+    - destruct first; [apply kovr_ret | exact Hks].
+    - eapply JS_bind_k; [eapply JS_weaken; [|apply (Jelem k1 k1 verb (S depth) ci (vr_leaf _ _ (lrel_refl k1 Lk)))]; intros ? ? H; exact H | apply Hkrec | intros _ _ _].
+      eapply JS_bind_k; [apply J_JS, J_wbyte | apply kovr_wbyte | intros _ _ _].
+      eapply JS_bind_k; [eapply JS_weaken; [|apply (Jelem x1 x2 verb (S depth) ci He)]; intros ? ? H; exact H | apply Hkrec | intros _ _ _; apply IH].
+  Qed.
+
+  Lemma Jfor_fields (sep : M unit) names verb depth ci : J any sep sep -> kovr sep ->
+    forall fs1 fs2, Forall2 (fun f1 f2 => fst f1 = fst f2 /\ vrel (snd f1) (snd f2)) fs1 fs2 -> forall first,
+    JS (HS False) any (for_fields rec sep names first fs1 verb depth ci) (for_fields rec sep names first fs2 verb depth ci).
+  Proof.
+    intros Hsep Hks fs1 fs2 Hf. induction Hf as [|[[n1 x1] y1] [[n2 x2] y2] r1 r2 (En & He) Hr IH]; intros first; cbn [for_fields]; [apply J_JS; now apply J_ret|].
+    cbn [fst snd] in *. injection En as <- <-.
+    eapply (JS_bind_k False any any); [| |intros _ _ _].
+    - destruct first; apply J_JS; [now apply J_ret | exact Hsep].
+    - destruct first; [apply kovr_ret | exact Hks].
+    - eapply (JS_bind_k False any any); [| |intros _ _ _].
+      + destruct names; [|apply J_JS; now apply J_ret]. destruct n1; [apply J_JS; now apply J_ret|].
+        apply J_JS. eapply (J_bind any any); [apply J_w1 | intros; apply J_wbyte].
+      + destruct names; [|apply kovr_ret]. destruct n1; [apply kovr_ret|]. apply kovr_bind; [apply kovr_w1 | intros; apply kovr_wbyte].
+      + eapply JS_bind_k; [eapply JS_weaken; [|apply (Jelem y1 y2 verb (S depth) (ci && x1) He)]; intros ? ? H; exact H | apply Hkrec | intros _ _ _; apply IH].
+  Qed.
+
+  Lemma J_sepSp : J any (f <- getf ;; if sharpV (fl f) then wstr ", " else wbyte 32) (f <- getf ;; if sharpV (fl f) then wstr ", " else wbyte 32).
+  Proof. eapply J_bind; [apply J_getf | intros f ? <-]. destruct (sharpV (fl f)); [apply J_wstr | apply J_wbyte]. Qed.
+  Lemma kovr_sepSp : kovr (f <- getf ;; if sharpV (fl f) then wstr ", " else wbyte 32).
+  Proof. apply kovr_bind; [apply kovr_getf | intros f]. destruct (sharpV (fl f)); [apply kovr_wstr | apply kovr_wbyte]. Qed.
+
+  Ltac seqk := eapply JS_bind_k; [ | | intros _ _ _].
+
+  Lemma Jprint_kind fuel v1 v2 verb depth ci : vrel v1 v2 ->
+    JS (HS (v1 = v2 /\ lfs v1 = true)) any (print_kind fuel rec env v1 verb depth ci) (print_kind fuel rec env v2 verb depth ci).
+  Proof.
+    intros Hv.
+    assert (lfs v1 = false -> JS (HS False) any (print_kind fuel rec env v1 verb depth ci) (print_kind fuel rec env v2 verb depth ci) ->
+            JS (HS (v1 = v2 /\ lfs v1 = true)) any (print_kind fuel rec env v1 verb depth ci) (print_kind fuel rec env v2 verb depth ci)) as Hcont.
+    { intros L Hj. eapply JS_weaken; [|exact Hj]. intros ? ? Hx Ho. destruct (Hx Ho) as [_ L']. congruence. }
+    inversion Hv; subst.
+    - eapply JS_weaken; [|now apply Jprint_kind_leaf]. intros ? ? Hx Ho. exact (proj1 (Hx Ho)).
+    - (* slice *) apply Hcont; [reflexivity|]. destruct fuel; cbn [print_kind];
+        (eapply JS_bind_k; [apply J_JS, J_getf | apply kovr_getf | intros f ? <-]; destruct (sharpV (fl f));
+         [ eapply JS_bind_k; [apply J_JS, J_w1 | apply kovr_w1 | intros _ _ _]; destruct n; [apply J_JS, J_wstr|];
+           eapply JS_bind_k; [apply J_JS, J_wbyte | apply kovr_wbyte | intros _ _ _];
+           eapply JS_bind; [apply Jfor_elems; [apply J_wstr | apply kovr_wstr | assumption] | intros; apply J_wbyte]
+         | eapply JS_bind_k; [apply J_JS, J_wbyte | apply kovr_wbyte | intros _ _ _];
+           eapply JS_bind; [apply Jfor_elems; [apply J_wbyte | apply kovr_wbyte | assumption] | intros; apply J_wbyte] ]).
+    - (* array *) apply Hcont; [reflexivity|]. destruct fuel; cbn [print_kind];
+        (eapply JS_bind_k; [apply J_JS, J_getf | apply kovr_getf | intros f ? <-]; destruct (sharpV (fl f));
+         [ eapply JS_bind_k; [apply J_JS, J_w1 | apply kovr_w1 | intros _ _ _];
+           eapply JS_bind_k; [apply J_JS, J_wbyte | apply kovr_wbyte | intros _ _ _];
+           eapply JS_bind; [apply Jfor_elems; [apply J_wstr | apply kovr_wstr | assumption] | intros; apply J_wbyte]
+         | eapply JS_bind_k; [apply J_JS, J_wbyte | apply kovr_wbyte | intros _ _ _];
+           eapply JS_bind; [apply Jfor_elems; [apply J_wbyte | apply kovr_wbyte | assumption] | intros; apply J_wbyte] ]).
+    - (* struct *) apply Hcont; [reflexivity|]. destruct fuel; cbn [print_kind];
+        (eapply JS_bind_k; [apply J_JS, J_getf | apply kovr_getf | intros f ? <-];
+         eapply JS_bind_k; [destruct (sharpV (fl f)); apply J_JS; [apply J_w1 | now apply J_ret] | destruct (sharpV (fl f)); [apply kovr_w1 | apply kovr_ret] | intros _ _ _];
+         eapply JS_bind_k; [apply J_JS, J_wbyte | apply kovr_wbyte | intros _ _ _];
+         eapply JS_bind; [apply Jfor_fields; [apply J_sepSp | apply kovr_sepSp | assumption] | intros; apply J_wbyte]).
+    - (* map *) apply Hcont; [reflexivity|]. destruct fuel; cbn [print_kind];
+        (eapply JS_bind_k; [apply J_JS, J_getf | apply kovr_getf | intros f ? <-]; destruct (sharpV (fl f));
+         [ eapply JS_bind_k; [apply J_JS, J_w1 | apply kovr_w1 | intros _ _ _]; destruct n; [apply J_JS, J_wstr|];
+           eapply JS_bind_k; [apply J_JS, J_wbyte | apply kovr_wbyte | intros _ _ _];
+           eapply JS_bind; [apply Jfor_kvs; [apply J_sepSp | apply kovr_sepSp | assumption] | intros; apply J_wbyte]
+         | eapply JS_bind_k; [apply J_JS, J_wstr | apply kovr_wstr | intros _ _ _];
+           eapply JS_bind; [apply Jfor_kvs; [apply J_sepSp | apply kovr_sepSp | assumption] | intros; apply J_wbyte] ]).
+    - (* nil interface *) apply Hcont; [reflexivity|]. destruct fuel; cbn [print_kind];
+        (apply J_JS; eapply J_bind; [apply J_getf | intros f ? <-]; destruct (sharpV (fl f)); [eapply J_bind; [apply J_w1 | intros; apply J_wstr] | apply J_wstr]).
+    - (* interface *) destruct fuel; cbn [print_kind];
+        (eapply JS_bind; [|intros; now apply J_ret];
+         eapply JS_weaken; [|apply (Hrec (CPrintValue a verb (S depth) ci) (CPrintValue b verb (S depth) ci)); exact (conj eq_refl (conj eq_refl (conj eq_refl H)))];
+         intros ? ? Hx Ho; destruct (Hx Ho) as [Ex Lx]; injection Ex as <-; cbn [cP];
+         split; [reflexivity|]; unfold lfs in Lx; cbn [leafish orb] in Lx; now apply lfs_leaf).
   Qed.
 
   (* ---------- printValue at depth 0, printArg ---------- *)
@@ -683,21 +851,6 @@ Section Rec.
 
   Lemma kovr_modify f : (forall s, povr (f s) = povr s) -> kovr (modify f).
   Proof. intros H s. apply H. Qed.
-
-  Lemma printValue0_leaf v verb ci : leafish v = true ->
-    printValue rec env v verb 0 ci = (modify (fun s => set_val (set_arg s None) (Some (v, ci))) ;;; print_kind 8 rec env v verb 0 ci).
-  Proof. intros L. destruct v; try discriminate; reflexivity. Qed.
-
-  Lemma JprintValue0 v1 v2 verb ci : lrel v1 v2 ->
-    JS (HS (v1 = v2)) any (printValue rec env v1 verb 0 ci) (printValue rec env v2 verb 0 ci).
-  Proof.
-    intros Hl. pose proof Hl as (L1 & L2 & _). rewrite !printValue0_leaf by assumption.
-    eapply JS_bind_k; [| apply kovr_modify; intros []; reflexivity | intros _ _ _; now apply Jprint_kind].
-    apply JS_modify; [|intros []; reflexivity | intros []; reflexivity].
-    intros s1 s2 N S Hs. split.
-    - destruct N; destruct s1, s2; constructor; cbn in *; auto.
-    - unfold SE in *. destruct s1, s2; cbn in *. intros Ho. rewrite (Hs Ho). auto.
-  Qed.
 
   (* what printArg does after recording the operand *)
   Definition pa_rest (arg : value) (verb : Z) : M unit :=
@@ -734,7 +887,7 @@ Section Rec.
     (modify (fun s => set_val (set_arg s (match arg with VNil => None | _ => Some arg end)) None) ;;; pa_rest arg verb).
   Proof. reflexivity. Qed.
 
-  Lemma Jpa_rest v1 v2 verb : lrel v1 v2 -> JS (HS (v1 = v2)) any (pa_rest v1 verb) (pa_rest v2 verb).
+  Lemma Jpa_rest_leaf v1 v2 verb : lrel v1 v2 -> JS (HS (v1 = v2 /\ lfs v1 = true)) any (pa_rest v1 verb) (pa_rest v2 verb).
   Proof.
     intros Hl. pose proof Hl as (L1 & L2 & _). destruct (lrel_tinfo _ _ Hl) as (_ & Etn & _ & _ & Eb & _).
     destruct (value_eq_nil v1) as [-> | Hn1].
@@ -755,13 +908,39 @@ Section Rec.
       rewrite <- Etn, <- Eb.
       destruct (verb =? 84); [apply J_JS; eapply J_bind; [apply J_getf | intros f ? <-; apply J_wr]|].
       destruct (verb =? 112); [apply J_JS, J_badverb_call|].
-      destruct (is_basic v1); [now apply Jleaf_fmt|].
+      destruct (is_basic v1); [eapply JS_weaken; [|now apply Jleaf_fmt]; intros ? ? Hx Ho; exact (proj1 (Hx Ho))|].
       eapply JS_bind_k; [| apply Hkrec |].
       + eapply JS_weaken; [|apply (Hrec (CHandleMethods verb) (CHandleMethods verb)); reflexivity]. intros ? ? _ _. exact Logic.I.
       + intros h ? <-. destruct (rbool h); [apply J_JS; now apply J_ret|].
         eapply JS_bind; [|intros; now apply J_ret].
-        eapply JS_weaken; [|apply (Hrec (CPrintValue v1 verb 0%nat true) (CPrintValue v2 verb 0%nat true)); exact (conj eq_refl (conj eq_refl (conj eq_refl (conj eq_refl Hl))))].
+        eapply JS_weaken; [|apply (Hrec (CPrintValue v1 verb 0%nat true) (CPrintValue v2 verb 0%nat true)); exact (conj eq_refl (conj eq_refl (conj eq_refl (vr_leaf _ _ Hl))))].
         intros ? ? H. exact H.
+  Qed.
+
+
+  Lemma Jpa_rest v1 v2 verb : vrel v1 v2 -> JS (HS (v1 = v2 /\ lfs v1 = true)) any (pa_rest v1 verb) (pa_rest v2 verb).
+  Proof.
+    intros Hv. destruct (Bool.bool_dec (leafish v1) true) as [L1|L1]; [apply Jpa_rest_leaf; now apply vrel_leaf_inv|].
+    apply Bool.not_true_is_false in L1.
+    destruct (vrel_tinfo _ _ Hv) as (_ & Etn & _).
+    assert (forall v, vshape v = true -> leafish v = false ->
+              pa_rest v verb = if verb =? 84 then f <- getf ;; wr (fmt_s f (type_name v))
+                               else if verb =? 112 then fmtPointer rec env v 112
+                               else (h <- rec (CHandleMethods verb) ;; if rbool h then ret tt else rec (CPrintValue v verb 0%nat true) ;;; ret tt)) as Hu
+      by (intros v Sv Lv; destruct v; try discriminate; reflexivity).
+    pose proof (vrel_shape _ _ Hv) as [S1 S2]. pose proof (vrel_leafish _ _ Hv) as EL. rewrite L1 in EL. symmetry in EL.
+    rewrite (Hu v1 S1 L1), (Hu v2 S2 EL), <- Etn.
+    destruct (verb =? 84); [apply J_JS; eapply J_bind; [apply J_getf | intros f ? <-; apply J_wr]|].
+    destruct (verb =? 112).
+    { apply J_JS. inversion Hv; subst; try discriminate;
+        try (match goal with Hx : lrel _ _ |- _ => destruct Hx as (Lx & _); congruence end); cbn [fmtPointer];
+        try (apply J_badverb_call); intros ? ? _ _ _; exact Logic.I. }
+    eapply JS_bind_k; [| apply Hkrec |].
+    - eapply JS_weaken; [|apply (Hrec (CHandleMethods verb) (CHandleMethods verb)); reflexivity]. intros ? ? _ _. exact Logic.I.
+    - intros h ? <-. destruct (rbool h); [apply J_JS; now apply J_ret|].
+      eapply JS_bind; [|intros; now apply J_ret].
+      eapply JS_weaken; [|apply (Hrec (CPrintValue v1 verb 0%nat true) (CPrintValue v2 verb 0%nat true)); exact (conj eq_refl (conj eq_refl (conj eq_refl Hv)))].
+      intros ? ? Hx. exact Hx.
   Qed.
 
   (* the judgement without the premise SE: for code that records its operand before reading the state *)
@@ -781,8 +960,11 @@ Section Rec.
   Lemma seg_same_pl s1 s1' s2 s2' x y : pl s1' = pl s1 -> pl s2' = pl s2 -> seg s1' x s2' y -> seg s1 x s2 y.
   Proof. intros E1 E2 (d1 & d2 & A & B & C). exists d1, d2. rewrite <- E1, <- E2. auto. Qed.
 
-  Lemma JprintArg_inner v1 v2 verb : lrel v1 v2 ->
-    JS0 (HS (v1 = v2)) any (printArg_inner rec env v1 verb) (printArg_inner rec env v2 verb).
+  Lemma vrel_nil_iff v1 v2 : vrel v1 v2 -> (v1 = VNil <-> v2 = VNil).
+  Proof. intros H. inversion H; subst; try (split; discriminate). now apply lrel_nil_iff. Qed.
+
+  Lemma JprintArg_inner v1 v2 verb : vrel v1 v2 ->
+    JS0 (HS (v1 = v2 /\ lfs v1 = true)) any (printArg_inner rec env v1 verb) (printArg_inner rec env v2 verb).
   Proof.
     intros Hl s1 s2 N Hs. rewrite !printArg_inner_unfold. unfold bind at 1 2, modify. cbn iota beta.
     set (a1 := set_val (set_arg s1 (match v1 with VNil => None | _ => Some v1 end)) None).
@@ -790,12 +972,13 @@ Section Rec.
     assert (NB a1 a2) as N'.
     { unfold a1, a2. destruct N. destruct s1, s2; constructor; cbn in *; auto.
       destruct (value_eq_nil v1) as [-> | Hn1].
-      - assert (v2 = VNil) as -> by (now apply (lrel_nil_iff _ _ Hl)). exact Logic.I.
-      - assert (v2 <> VNil) as Hn2 by (intros E; apply Hn1; now apply (lrel_nil_iff _ _ Hl)).
+      - assert (v2 = VNil) as -> by (now apply (vrel_nil_iff _ _ Hl)). exact Logic.I.
+      - assert (v2 <> VNil) as Hn2 by (intros E; apply Hn1; now apply (vrel_nil_iff _ _ Hl)).
         destruct v1, v2; try congruence; exact Hl. }
     assert (SE a1 a2) as S'.
-    { unfold SE, a1, a2. destruct s1, s2; cbn in *. intros Ho. rewrite (Hs Ho). auto. }
-    assert (HS (v1 = v2) a1 a2) as Hs' by (unfold HS, a1 in *; destruct s1; exact Hs).
+    { unfold SE, a1, a2. destruct s1, s2; cbn in *. intros Ho. destruct (Hs Ho) as [<- Lf].
+      split; [reflexivity|]. split; [destruct v1; try exact Logic.I; exact Lf|]. intros _. split; [reflexivity | exact Logic.I]. }
+    assert (HS (v1 = v2 /\ lfs v1 = true) a1 a2) as Hs' by (unfold HS, a1 in *; destruct s1; exact Hs).
     pose proof (Jpa_rest v1 v2 verb Hl a1 a2 N' S' Hs') as R.
     destruct (pa_rest v1 verb a1) as [[u1|?| |?] x], (pa_rest v2 verb a2) as [[u2|?| |?] y]; try exact Logic.I.
     destruct R as (_ & Nx & Sx & Gx). refine (conj Logic.I (conj Nx (conj Sx _))).
@@ -858,32 +1041,218 @@ Section Rec.
       cbn [rev app]. rewrite lmode_setmode. apply ds_mode. constructor.
   Qed.
 
-  Lemma JprintArg_body v1 v2 verb : lrel v1 v2 ->
-    JS0 (HS (v1 = v2)) any (printArg_body rec env v1 verb) (printArg_body rec env v2 verb).
+  (* the same around a body that reads the state first: the operand was recorded just before *)
+  Definition SEu (s1 s2 : pst) : Prop :=
+    parg s1 = parg s2 /\ leaf_opt (parg s1) /\
+    (parg s1 = None -> pval s1 = pval s2 /\ leaf_opt (option_map fst (pval s1))).
+
+  Lemma Jbracket_safe2 (b1 b2 : M unit) : kovr b1 ->
+    J any b1 b2 -> JS0 SEu any (bracket start_safe_ovr b1) (bracket start_safe_ovr b2).
   Proof.
-    intros Hl. unfold printArg_body. destruct (lrel_tinfo _ _ Hl) as (_ & _ & Es & _). rewrite <- Es.
+    intros Hk Hb s1 s2 N Hu. rewrite !bracket_safe_run. cbn zeta.
+    pose proof (nb_ovr _ _ N) as Eo. rewrite <- Eo, <- (nb_mode _ _ N).
+    set (a1 := if ovr_eqb (povr s1) NoOvr then set_ovr (set_pl s1 (lset (pl s1) (OMode MSafe))) OvrSafe else s1).
+    set (a2 := if ovr_eqb (povr s1) NoOvr then set_ovr (set_pl s2 (lset (pl s2) (OMode MSafe))) OvrSafe else s2).
+    assert (NB a1 a2 /\ povr a1 = OvrSafe /\ seg s1 a1 s2 a2 /\ SE a1 a2) as (Na & Oa & Ga & Sa).
+    { unfold a1, a2. destruct (ovr_eqb (povr s1) NoOvr) eqn:Ev.
+      - split; [|split; [|split]].
+        + apply NB_set_ovr; [|discriminate|].
+          * apply NB_set_pl; [exact N | now rewrite !lmode_setmode | intros _; rewrite lmode_setmode; discriminate].
+          * intros _. rewrite pl_set_pl, lmode_setmode. discriminate.
+        + destruct s1; reflexivity.
+        + exists [OMode MSafe], [OMode MSafe].
+          assert (forall s l o, pl (set_ovr (set_pl s l) o) = l) as Hp by (intros [] ? ?; reflexivity).
+          rewrite !Hp, !rlog_lset. split; [reflexivity|]. split; [reflexivity|]. cbn [rev app]. rewrite lmode_setmode. apply ds_mode. constructor.
+        + unfold SE, SEu in *. destruct s1, s2; cbn in *. intros _. exact Hu.
+      - split; [exact N|]. split; [|split; [apply seg_refl|]].
+        + pose proof (nb_nou _ _ N). destruct (povr s1); try discriminate; congruence.
+        + intros _. exact Hu. }
+    specialize (Hb a1 a2 Na Sa Logic.I). pose proof (Hk a1) as Ek.
+    destruct (b1 a1) as [[u1|?| |?] x], (b2 a2) as [[u2|?| |?] y]; try exact Logic.I.
+    destruct Hb as (_ & Nx & Sx & Gx). cbn [snd] in Ek.
+    assert (forall s l o, pl (set_ovr (set_pl s l) o) = l) as Hp by (intros [] ? ?; reflexivity).
+    refine (conj Logic.I (conj _ (conj _ _))).
+    - apply NB_set_pl_ovr; [exact Nx | now rewrite !lmode_setmode | apply N |].
+      intros Ho. rewrite lmode_setmode. now apply N.
+    - unfold SE. assert (forall s l o, parg (set_ovr (set_pl s l) o) = parg s /\ pval (set_ovr (set_pl s l) o) = pval s /\ povr (set_ovr (set_pl s l) o) = o) as Hf by (intros [] ? ?; auto).
+      destruct (Hf x (lset (pl x) (OMode (lmode (pl s1)))) (povr s1)) as (-> & -> & ->).
+      destruct (Hf y (lset (pl y) (OMode (lmode (pl s1)))) (povr s1)) as (-> & -> & _).
+      intros Ho. apply Sx. rewrite Ek. exact Oa.
+    - eapply seg_trans; [exact Ga|]. eapply seg_trans; [exact Gx|].
+      exists [OMode (lmode (pl s1))], [OMode (lmode (pl s1))]. rewrite !Hp, !rlog_lset. split; [reflexivity|]. split; [reflexivity|].
+      cbn [rev app]. rewrite lmode_setmode. apply ds_mode. constructor.
+  Qed.
+
+  (* a field update that records the operand, then code that reads the state *)
+  Lemma JS0_modify_bind (H H' : pst -> pst -> Prop) (f g : pst -> pst) (m1 m2 : M unit) :
+    (forall s1 s2, NB s1 s2 -> H s1 s2 -> NB (f s1) (g s2) /\ SE (f s1) (g s2) /\ H' (f s1) (g s2)) ->
+    (forall s, pl (f s) = pl s) -> (forall s, pl (g s) = pl s) ->
+    JS H' any m1 m2 -> JS0 H any (modify f ;;; m1) (modify g ;;; m2).
+  Proof.
+    intros Hr Hf Hg Hm s1 s2 N Hs. unfold bind at 1 2, modify. cbn iota beta.
+    destruct (Hr s1 s2 N Hs) as (N' & S' & H1).
+    pose proof (Hm (f s1) (g s2) N' S' H1) as R.
+    destruct (m1 (f s1)) as [[u1|?| |?] x], (m2 (g s2)) as [[u2|?| |?] y]; try exact Logic.I.
+    destruct R as (_ & Nx & Sx & Gx). refine (conj Logic.I (conj Nx (conj Sx _))).
+    apply (seg_same_pl s1 (f s1) s2 (g s2)); [apply Hf | apply Hg | exact Gx].
+  Qed.
+
+  (* ---------- printValue at every depth ---------- *)
+  Definition kind_part (v : value) (verb : Z) (depth : nat) (ci : bool) : M unit :=
+    modify (fun s => set_val (set_arg s None) (Some (v, ci))) ;;; print_kind 8 rec env v verb depth ci.
+  Definition dyn_of (v : value) : option value := match v with VIface _ e => e | v => Some v end.
+  Definition dyn_safe (v : value) : bool :=
+    match dyn_of v with Some x => is_safe_value x || is_registered x | None => false end.
+  Definition after_arg (v : value) (verb : Z) (depth : nat) (ci : bool) : M unit :=
+    bracket_if (dyn_safe v) start_safe_ovr
+      (h <- rec (CHandleMethods verb) ;; if rbool h then ret tt else kind_part v verb depth ci).
+  Definition pv_body (v : value) (verb : Z) (depth : nat) (ci : bool) : M unit :=
+    if ci then modify (fun s => set_arg s (dyn_of v)) ;;; after_arg v verb depth ci else kind_part v verb depth ci.
+
+  Lemma printValue_shape v verb depth ci : vshape v = true ->
+    printValue rec env v verb depth ci =
+    match depth with
+    | O => kind_part v verb depth ci
+    | S _ => bracket_if (is_registered v) start_safe_ovr (pv_body v verb depth ci)
+    end.
+  Proof. intros Sv. destruct depth; destruct v; try discriminate; reflexivity. Qed.
+
+  Lemma Jkind_part v1 v2 verb depth ci : vrel v1 v2 ->
+    JS0 (HS (v1 = v2 /\ lfs v1 = true)) any (kind_part v1 verb depth ci) (kind_part v2 verb depth ci).
+  Proof.
+    intros Hv. unfold kind_part.
+    apply (JS0_modify_bind _ (HS (v1 = v2 /\ lfs v1 = true))); [|intros []; reflexivity | intros []; reflexivity | now apply Jprint_kind].
+    intros s1 s2 N Hs. split; [|split].
+    - destruct N; destruct s1, s2; constructor; cbn in *; auto.
+    - unfold SE, HS in *. destruct s1, s2; cbn in *. intros Ho. destruct (Hs Ho) as [<- Lf].
+      split; [reflexivity|]. split; [exact Logic.I|]. intros _. split; [reflexivity | exact Lf].
+    - unfold HS in *. destruct s1; exact Hs.
+  Qed.
+
+  Lemma keeps_kind_part v verb depth ci : keeps (kind_part v verb depth ci).
+  Proof.
+    unfold kind_part. apply keeps_bind; [apply keeps_modify; intros []; split; reflexivity | intros _].
+    apply keeps_print_kind. exact Hkeeps.
+  Qed.
+  Lemma keeps_after_arg v verb depth ci : keeps (after_arg v verb depth ci).
+  Proof.
+    unfold after_arg. apply keeps_bracket_if; [apply start_ok_safe_ovr|].
+    apply keeps_bind; [apply Hkeeps; exact Logic.I | intros h]. destruct (rbool h); [apply keeps_ret | apply keeps_kind_part].
+  Qed.
+  Lemma keeps_pv_body v verb depth ci : keeps (pv_body v verb depth ci).
+  Proof.
+    unfold pv_body. destruct ci; [|apply keeps_kind_part].
+    apply keeps_bind; [apply keeps_modify; intros []; split; reflexivity | intros _; apply keeps_after_arg].
+  Qed.
+
+  Lemma dyn_rel v1 v2 : vrel v1 v2 -> orel vrel (dyn_of v1) (dyn_of v2) /\ dyn_safe v1 = dyn_safe v2.
+  Proof.
+    intros Hv. unfold dyn_safe.
+    assert (forall a b, vrel a b -> (is_safe_value a || is_registered a) = (is_safe_value b || is_registered b)) as He
+      by (intros a b Hab; destruct (vrel_tinfo _ _ Hab) as (_ & _ & -> & -> & _); reflexivity).
+    inversion Hv; subst; cbn [dyn_of orel]; try (split; [assumption | now apply He]); try (split; [exact Logic.I | reflexivity]).
+    - assert (dyn_of v1 = Some v1 /\ dyn_of v2 = Some v2) as [-> ->].
+      { destruct H as (L1 & L2 & _). destruct v1, v2; try discriminate; split; reflexivity. }
+      cbn [orel]. split; [exact Hv | now apply He].
+  Qed.
+
+  (* after p.arg = value.Interface() *)
+  Lemma Jafter_arg v1 v2 verb depth ci : vrel v1 v2 ->
+    JS0 (fun s1 s2 => (povr s1 = OvrSafe -> v1 = v2 /\ lfs v1 = true) /\ parg s1 = dyn_of v1 /\ parg s2 = dyn_of v2) any
+       (after_arg v1 verb depth ci) (after_arg v2 verb depth ci).
+  Proof.
+    intros Hv. destruct (dyn_rel _ _ Hv) as [Hd Es]. unfold after_arg. rewrite <- Es.
+    assert (JS (HS (v1 = v2 /\ lfs v1 = true)) any
+              (h <- rec (CHandleMethods verb) ;; if rbool h then ret tt else kind_part v1 verb depth ci)
+              (h <- rec (CHandleMethods verb) ;; if rbool h then ret tt else kind_part v2 verb depth ci)) as Hbody.
+    { eapply JS_bind_k; [| apply Hkrec |].
+      - eapply JS_weaken; [|apply (Hrec (CHandleMethods verb) (CHandleMethods verb)); reflexivity]. intros ? ? _ _. exact Logic.I.
+      - intros h ? <-. destruct (rbool h); [apply J_JS; now apply J_ret|]. apply JS0_JS. now apply Jkind_part. }
+    destruct (dyn_safe v1) eqn:Ed; cbn [bracket_if].
+    - (* a SafeValue / registered value: equal on both sides, a leaf (possibly in an interface slot) *)
+      unfold dyn_safe in Ed. destruct (dyn_of v1) as [d1|] eqn:D1; [|discriminate].
+      destruct (dyn_of v2) as [d2|] eqn:D2; cbn [orel] in Hd; [|contradiction].
+      pose proof (vrel_safe_eq _ _ Hd Ed) as <-. pose proof (vrel_safe_leaf _ _ Hd Ed) as Ld.
+      assert (v1 = v2 /\ lfs v1 = true) as [<- Lv].
+      { inversion Hv; subst; cbn [dyn_of] in D1, D2; try (injection D1 as <-; discriminate); try discriminate.
+        - destruct H as (L1 & L2 & _). assert (dyn_of v1 = Some v1) as E1 by (destruct v1; try discriminate; reflexivity).
+          assert (dyn_of v2 = Some v2) as E2 by (destruct v2; try discriminate; reflexivity).
+          rewrite E1 in D1. rewrite E2 in D2. injection D1 as <-. injection D2 as <-. split; [reflexivity | now apply lfs_leaf].
+        - injection D1 as <-. injection D2 as <-. split; [reflexivity|]. unfold lfs. cbn [leafish orb]. exact Ld. }
+      eapply JS0_weaken; [|apply Jbracket_safe2].
+      + intros s1 s2 (_ & P1 & P2). unfold SEu. rewrite P1, P2. split; [reflexivity|]. split; [now apply lfs_leaf | discriminate].
+      + apply kovr_bind; [apply Hkrec | intros h]. destruct (rbool h); [apply kovr_ret | apply kovr_keeps, keeps_kind_part].
+      + eapply JS_weaken; [|exact Hbody]. intros ? ? _ _. split; [reflexivity | exact Lv].
+    - intros s1 s2 N (Hx & P1 & P2).
+      assert (SE s1 s2) as S'.
+      { intros Ho. destruct (Hx Ho) as [<- Lv]. rewrite P1, P2. split; [reflexivity|].
+        assert (dyn_of v1 = Some v1 \/ exists tn d, v1 = VIface tn (Some d) /\ leafish d = true) as [E | (tn & d & -> & Ld)].
+        { unfold lfs in Lv. destruct v1; cbn in Lv; try discriminate; try (left; reflexivity).
+          destruct e as [d|]; [|discriminate]. right. exists tn, d. split; [reflexivity | exact Lv]. }
+        - rewrite E. split; [exact Lv | discriminate].
+        - cbn [dyn_of]. split; [now apply lfs_leaf | discriminate]. }
+      exact (Hbody s1 s2 N S' Hx).
+  Qed.
+
+  Lemma Jpv_body v1 v2 verb depth ci : vrel v1 v2 ->
+    JS0 (HS (v1 = v2 /\ lfs v1 = true)) any (pv_body v1 verb depth ci) (pv_body v2 verb depth ci).
+  Proof.
+    intros Hv. unfold pv_body. destruct ci; [|now apply Jkind_part].
+    intros s1 s2 N Hs. unfold bind at 1 2, modify. cbn iota beta.
+    set (a1 := set_arg s1 (dyn_of v1)). set (a2 := set_arg s2 (dyn_of v2)).
+    assert (NB a1 a2) as N'.
+    { unfold a1, a2. destruct (dyn_rel _ _ Hv) as [Hd _]. destruct N. destruct s1, s2; constructor; cbn in *; auto. }
+    assert ((povr a1 = OvrSafe -> v1 = v2 /\ lfs v1 = true) /\ parg a1 = dyn_of v1 /\ parg a2 = dyn_of v2) as Hp.
+    { unfold a1, a2, HS in *. destruct s1, s2; cbn in *. auto. }
+    pose proof (Jafter_arg v1 v2 verb depth true Hv a1 a2 N' Hp) as R.
+    destruct (after_arg v1 verb depth true a1) as [[u1|?| |?] x], (after_arg v2 verb depth true a2) as [[u2|?| |?] y]; try exact Logic.I.
+    destruct R as (_ & Nx & Sx & Gx). refine (conj Logic.I (conj Nx (conj Sx _))).
+    apply (seg_same_pl s1 a1 s2 a2); [unfold a1; destruct s1; reflexivity | unfold a2; destruct s2; reflexivity | exact Gx].
+  Qed.
+
+  Lemma JprintValue v1 v2 verb depth ci : vrel v1 v2 ->
+    JS (HS (v1 = v2 /\ lfs v1 = true)) any (printValue rec env v1 verb depth ci) (printValue rec env v2 verb depth ci).
+  Proof.
+    intros Hv. destruct (vrel_shape _ _ Hv) as [S1 S2]. rewrite !printValue_shape by assumption.
+    destruct depth as [|d]; [apply JS0_JS; now apply Jkind_part|].
+    destruct (vrel_tinfo _ _ Hv) as (_ & _ & _ & Er & _). rewrite <- Er.
+    destruct (is_registered v1) eqn:E; cbn [bracket_if]; [|apply JS0_JS; now apply Jpv_body].
+    assert (v1 = v2) as <- by (apply (vrel_safe_eq _ _ Hv); rewrite E; apply Bool.orb_true_r).
+    assert (leafish v1 = true) as Lv by (apply (vrel_safe_leaf _ _ Hv); rewrite E; apply Bool.orb_true_r).
+    apply JS0_JS. eapply JS0_weaken; [|apply Jbracket_safe].
+    - intros ? ? _. exact Logic.I.
+    - apply kovr_keeps, keeps_pv_body.
+    - eapply JS0_weaken; [|apply (Jpv_body v1 v1 verb (S d) ci Hv)]. intros ? ? _ _. split; [reflexivity | now apply lfs_leaf].
+  Qed.
+
+  Lemma JprintArg_body v1 v2 verb : vrel v1 v2 ->
+    JS0 (HS (v1 = v2 /\ lfs v1 = true)) any (printArg_body rec env v1 verb) (printArg_body rec env v2 verb).
+  Proof.
+    intros Hl. unfold printArg_body. destruct (vrel_tinfo _ _ Hl) as (_ & _ & Es & _). rewrite <- Es.
     destruct (is_safe_value v1) eqn:E; cbn [bracket_if]; [|now apply JprintArg_inner].
-    assert (v1 = v2) as <- by (apply (lrel_safe_eq _ _ Hl); now rewrite E).
+    assert (v1 = v2) as <- by (apply (vrel_safe_eq _ _ Hl); now rewrite E).
+    assert (leafish v1 = true) as Lv by (apply (vrel_safe_leaf _ _ Hl); now rewrite E).
     eapply JS0_weaken; [|apply Jbracket_safe].
     - intros ? ? _. exact Logic.I.
     - apply kovr_keeps, keeps_printArg_inner, Hkeeps.
-    - eapply JS0_weaken; [|apply (JprintArg_inner v1 v1 verb Hl)]. intros ? ? _ _. reflexivity.
+    - eapply JS0_weaken; [|apply (JprintArg_inner v1 v1 verb Hl)]. intros ? ? _ _. split; [reflexivity | now apply lfs_leaf].
   Qed.
 
-  Lemma JprintArg v1 v2 verb : lrel v1 v2 ->
-    JS0 (HS (v1 = v2)) any (printArg rec env v1 verb) (printArg rec env v2 verb).
+  Lemma JprintArg v1 v2 verb : vrel v1 v2 ->
+    JS0 (HS (v1 = v2 /\ lfs v1 = true)) any (printArg rec env v1 verb) (printArg rec env v2 verb).
   Proof.
-    intros Hl. pose proof Hl as (L1 & L2 & _). destruct (lrel_tinfo _ _ Hl) as (_ & _ & _ & Er & _).
-    assert (forall v, leafish v = true -> printArg rec env v verb =
+    intros Hl. destruct (vrel_shape _ _ Hl) as [L1 L2]. destruct (vrel_tinfo _ _ Hl) as (_ & _ & _ & Er & _).
+    assert (forall v, vshape v = true -> printArg rec env v verb =
               if is_registered v then bracket start_safe_ovr (printArg_body rec env v verb) else printArg_body rec env v verb) as Hu.
     { intros v L. unfold printArg. destruct (is_registered v); [reflexivity|]. destruct v; try discriminate; reflexivity. }
     rewrite (Hu v1 L1), (Hu v2 L2), <- Er.
     destruct (is_registered v1) eqn:E; [|now apply JprintArg_body].
-    assert (v1 = v2) as <- by (apply (lrel_safe_eq _ _ Hl); rewrite E; apply Bool.orb_true_r).
+    assert (v1 = v2) as <- by (apply (vrel_safe_eq _ _ Hl); rewrite E; apply Bool.orb_true_r).
+    assert (leafish v1 = true) as Lv by (apply (vrel_safe_leaf _ _ Hl); rewrite E; apply Bool.orb_true_r).
     eapply JS0_weaken; [|apply Jbracket_safe].
     - intros ? ? _. exact Logic.I.
     - apply kovr_keeps, keeps_printArg_body, Hkeeps.
-    - eapply JS0_weaken; [|apply (JprintArg_body v1 v1 verb Hl)]. intros ? ? _ _. reflexivity.
+    - eapply JS0_weaken; [|apply (JprintArg_body v1 v1 verb Hl)]. intros ? ? _ _. split; [reflexivity | now apply lfs_leaf].
   Qed.
 
   (* one step of the evaluator on related calls *)
@@ -904,7 +1273,7 @@ Section Rec.
   Proof.
     intros Hc. destruct c1, c2; cbn [crel] in Hc; try contradiction; cbn [cP].
     - destruct Hc as [<- Hl]. eapply JS_bind; [|intros; now apply J_ret]. apply JS0_JS. now apply JprintArg.
-    - destruct Hc as (<- & -> & -> & <- & Hl). eapply JS_bind; [|intros; now apply J_ret]. now apply JprintValue0.
+    - destruct Hc as (<- & <- & <- & Hl). eapply JS_bind; [|intros; now apply J_ret]. now apply JprintValue.
     - subst. apply J_JS. eapply J_bind; [apply JbadVerb | intros; now apply J_ret].
     - subst. apply J_JS. eapply J_bind; [apply JhandleMethods | intros b ? <-; now apply J_ret].
   Qed.
@@ -1002,17 +1371,17 @@ Section Loop.
   Lemma Forall2_len {A B} (R : A -> B -> Prop) l1 l2 : Forall2 R l1 l2 -> length l1 = length l2.
   Proof. induction 1; cbn; congruence. Qed.
 
-  Lemma lrel_nth a1 : forall a2 n, Forall2 lrel a1 a2 -> lrel (nth n a1 VNil) (nth n a2 VNil).
+  Lemma lrel_nth a1 : forall a2 n, Forall2 vrel a1 a2 -> vrel (nth n a1 VNil) (nth n a2 VNil).
   Proof.
     induction a1 as [|x r IH]; intros a2 n H; inversion H; subst.
-    - destruct n; apply lrel_refl; reflexivity.
+    - destruct n; apply vr_leaf, lrel_refl; reflexivity.
     - destruct n; cbn [nth]; [assumption | now apply IH].
   Qed.
 
   Lemma NoO_HS P s1 s2 : NoO s1 s2 -> HS P s1 s2.
   Proof. unfold NoO, HS. intros -> X. discriminate. Qed.
 
-  Lemma Jrec_arg a1 a2 n verb : Forall2 lrel a1 a2 ->
+  Lemma Jrec_arg a1 a2 n verb : Forall2 vrel a1 a2 ->
     JS NoO any (rec (CPrintArg (nth n a1 VNil) verb)) (rec (CPrintArg (nth n a2 VNil) verb)).
   Proof.
     intros Ha s1 s2 N S Hn.
@@ -1026,7 +1395,7 @@ Section Loop.
   Ltac jb := eapply (JS_bind_o (fun o => o = NoOvr)).
   Ltac jn x := apply (J_JS NoO); exact x.
 
-  Lemma J_format_loop f a1 a2 : no_star f = true -> Forall2 lrel a1 a2 ->
+  Lemma J_format_loop f a1 a2 : no_star f = true -> Forall2 vrel a1 a2 ->
     forall fuel i argNum afterIndex,
     JS NoO eq (format_loop fuel rec f a1 i argNum afterIndex) (format_loop fuel rec f a2 i argNum afterIndex).
   Proof.
@@ -1116,7 +1485,7 @@ Section Top.
     apply (JS_set_mode MSafe); auto. intros _. discriminate.
   Qed.
 
-  Lemma J_extra_args a1 : forall a2 first, Forall2 lrel a1 a2 ->
+  Lemma J_extra_args a1 : forall a2 first, Forall2 vrel a1 a2 ->
     JS NoO any (extra_args rec first a1) (extra_args rec first a2).
   Proof.
     induction a1 as [|x r IH]; intros a2 first H; inversion H as [|? y ? r2 Hxy Hr]; subst; cbn [extra_args]; [apply J_JS; now apply J_ret|].
@@ -1124,9 +1493,9 @@ Section Top.
     { destruct first; [apply J_JS; now apply J_ret | apply J_JS, J_wstr]. }
     jba; [| | intros _ _ _; now apply IH].
     - destruct (value_eq_nil x) as [-> | Hn1].
-      + assert (y = VNil) as -> by (now apply (lrel_nil_iff _ _ Hxy)). apply J_JS, J_wstr.
-      + assert (y <> VNil) as Hn2 by (intros E; apply Hn1; now apply (lrel_nil_iff _ _ Hxy)).
-        destruct (lrel_tinfo _ _ Hxy) as (_ & Etn & _).
+      + assert (y = VNil) as -> by (now apply (vrel_nil_iff _ _ Hxy)). apply J_JS, J_wstr.
+      + assert (y <> VNil) as Hn2 by (intros E; apply Hn1; now apply (vrel_nil_iff _ _ Hxy)).
+        destruct (vrel_tinfo _ _ Hxy) as (_ & Etn & _).
         assert ((match x with VNil => wstr "<nil>" | _ => w1 (WS (type_name x)) ;;; wbyte 61 ;;; rec (CPrintArg x 118) ;;; ret tt end)
                 = (w1 (WS (type_name x)) ;;; wbyte 61 ;;; rec (CPrintArg x 118) ;;; ret tt)) as -> by (destruct x; congruence).
         assert ((match y with VNil => wstr "<nil>" | _ => w1 (WS (type_name y)) ;;; wbyte 61 ;;; rec (CPrintArg y 118) ;;; ret tt end)
@@ -1146,7 +1515,7 @@ Section Top.
   Lemma Forall2_skipn {A B} (R : A -> B -> Prop) n : forall l1 l2, Forall2 R l1 l2 -> Forall2 R (skipn n l1) (skipn n l2).
   Proof. induction n as [|k IH]; intros l1 l2 H; [exact H|]. inversion H; subst; cbn [skipn]; [constructor | now apply IH]. Qed.
 
-  Lemma J_doPrintf f a1 a2 : no_star f = true -> Forall2 lrel a1 a2 ->
+  Lemma J_doPrintf f a1 a2 : no_star f = true -> Forall2 vrel a1 a2 ->
     JS NoO any (doPrintf rec f a1) (doPrintf rec f a2).
   Proof.
     intros Hns Ha. unfold doPrintf. rewrite <- (Forall2_len _ _ _ Ha).
@@ -1164,11 +1533,11 @@ Section Top.
     - apply (J_ret any tt tt Logic.I); auto.
   Qed.
 
-  Lemma J_doPrint_loop a1 : forall a2 argNum prev, Forall2 lrel a1 a2 ->
+  Lemma J_doPrint_loop a1 : forall a2 argNum prev, Forall2 vrel a1 a2 ->
     JS NoO any (doPrint_loop rec argNum prev a1) (doPrint_loop rec argNum prev a2).
   Proof.
     induction a1 as [|x r IH]; intros a2 argNum prev H; inversion H as [|? y ? r2 Hxy Hr]; subst; cbn [doPrint_loop]; [apply J_JS; now apply J_ret|].
-    destruct (lrel_tinfo _ _ Hxy) as (_ & _ & _ & _ & _ & Es & _). rewrite <- Es.
+    destruct (vrel_tinfo _ _ Hxy) as (_ & _ & _ & _ & _ & Es & _). rewrite <- Es.
     jba; [| destruct ((0 <? argNum)%nat && negb (is_string_kind x) && negb prev); [apply kovr_wbyte | intros s; reflexivity] | intros _ _ _].
     { destruct ((0 <? argNum)%nat && negb (is_string_kind x) && negb prev); [apply J_JS, J_wbyte | apply J_JS; now apply J_ret]. }
     jba; [| apply Hkrec | intros _ _ _; now apply IH].
@@ -1178,7 +1547,7 @@ Section Top.
     destruct R as (_ & R). exact (conj Logic.I R).
   Qed.
 
-  Lemma J_doPrint a1 a2 : Forall2 lrel a1 a2 -> JS NoO any (doPrint rec a1) (doPrint rec a2).
+  Lemma J_doPrint a1 a2 : Forall2 vrel a1 a2 -> JS NoO any (doPrint rec a1) (doPrint rec a2).
   Proof.
     intros Ha. unfold doPrint. jb; [apply J_enter_safe | apply kovr_enter_safe | intros _ _ _]. now apply J_doPrint_loop.
   Qed.
@@ -1191,8 +1560,8 @@ Proof.
   constructor; cbn; auto; try discriminate.
 Qed.
 
-Theorem sprintf_leaf_dsim fuel env f a1 a2 o1 o2 :
-  osane (orc env) -> no_star f = true -> Forall2 lrel a1 a2 ->
+Theorem sprintf_tree_dsim fuel env f a1 a2 o1 o2 :
+  osane (orc env) -> no_star f = true -> Forall2 vrel a1 a2 ->
   sprintf fuel env f a1 = ROk o1 -> sprintf fuel env f a2 = ROk o2 ->
   exists ops1 ops2 m', o_log o1 = ops1 ++ [OTake] /\ o_log o2 = ops2 ++ [OTake] /\
                        o_bytes o1 = output ops1 /\ o_bytes o2 = output ops2 /\ dsim MUnsafe ops1 ops2 m'.
@@ -1216,24 +1585,24 @@ Proof.
 Qed.
 
 (* Non-interference of Sprintf for leaf operands: Redact() of the two results is byte-identical *)
-Theorem sprintf_leaf_noninterference fuel env f a1 a2 o1 o2 :
-  osane (orc env) -> no_star f = true -> Forall2 lrel a1 a2 ->
+Theorem sprintf_tree_noninterference fuel env f a1 a2 o1 o2 :
+  osane (orc env) -> no_star f = true -> Forall2 vrel a1 a2 ->
   sprintf fuel env f a1 = ROk o1 -> sprintf fuel env f a2 = ROk o2 ->
   forall ops1 ops2, o_log o1 = ops1 ++ [OTake] -> o_log o2 = ops2 ++ [OTake] ->
   rawok ops1 = true -> ptail_ok_from init ops1 = true -> ptail_ok_from init ops2 = true ->
   Markers.redact_b (o_bytes o1) = Markers.redact_b (o_bytes o2).
 Proof.
   intros Ho Hns Ha H1 H2 ops1 ops2 E1 E2 Hr T1 T2.
-  destruct (sprintf_leaf_dsim fuel env f a1 a2 o1 o2 Ho Hns Ha H1 H2) as (p1 & p2 & m' & F1 & F2 & B1 & B2 & D).
+  destruct (sprintf_tree_dsim fuel env f a1 a2 o1 o2 Ho Hns Ha H1 H2) as (p1 & p2 & m' & F1 & F2 & B1 & B2 & D).
   rewrite E1 in F1. rewrite E2 in F2. apply app_inj_tail in F1, F2. destruct F1 as [<- _], F2 as [<- _].
   rewrite B1, B2. eapply redact_noninterference_seg; eassumption.
 Qed.
 
-Print Assumptions sprintf_leaf_noninterference.
+Print Assumptions sprintf_tree_noninterference.
 
 (* the same for Sprint *)
-Theorem sprint_leaf_dsim fuel env a1 a2 o1 o2 :
-  osane (orc env) -> Forall2 lrel a1 a2 ->
+Theorem sprint_tree_dsim fuel env a1 a2 o1 o2 :
+  osane (orc env) -> Forall2 vrel a1 a2 ->
   sprint fuel env a1 = ROk o1 -> sprint fuel env a2 = ROk o2 ->
   exists ops1 ops2 m', o_log o1 = ops1 ++ [OTake] /\ o_log o2 = ops2 ++ [OTake] /\
                        o_bytes o1 = output ops1 /\ o_bytes o2 = output ops2 /\ dsim MUnsafe ops1 ops2 m'.
@@ -1256,16 +1625,37 @@ Proof.
   rewrite L1, L2. cbn [newPrinter fresh_pp pl l_init rlog]. rewrite !app_nil_r. exact D.
 Qed.
 
-Theorem sprint_leaf_noninterference fuel env a1 a2 o1 o2 :
-  osane (orc env) -> Forall2 lrel a1 a2 ->
+Theorem sprint_tree_noninterference fuel env a1 a2 o1 o2 :
+  osane (orc env) -> Forall2 vrel a1 a2 ->
   sprint fuel env a1 = ROk o1 -> sprint fuel env a2 = ROk o2 ->
   forall ops1 ops2, o_log o1 = ops1 ++ [OTake] -> o_log o2 = ops2 ++ [OTake] ->
   rawok ops1 = true -> ptail_ok_from init ops1 = true -> ptail_ok_from init ops2 = true ->
   Markers.redact_b (o_bytes o1) = Markers.redact_b (o_bytes o2).
 Proof.
   intros Ho Ha H1 H2 ops1 ops2 E1 E2 Hr T1 T2.
-  destruct (sprint_leaf_dsim fuel env a1 a2 o1 o2 Ho Ha H1 H2) as (p1 & p2 & m' & F1 & F2 & B1 & B2 & D).
+  destruct (sprint_tree_dsim fuel env a1 a2 o1 o2 Ho Ha H1 H2) as (p1 & p2 & m' & F1 & F2 & B1 & B2 & D).
   rewrite E1 in F1. rewrite E2 in F2. apply app_inj_tail in F1, F2. destruct F1 as [<- _], F2 as [<- _].
   rewrite B1, B2. eapply redact_noninterference_seg; eassumption.
 Qed.
-Print Assumptions sprint_leaf_noninterference.
+Print Assumptions sprint_tree_noninterference.
+
+(* the leaf-only statements as corollaries *)
+Lemma lrel_vrel_list a1 a2 : Forall2 lrel a1 a2 -> Forall2 vrel a1 a2.
+Proof. induction 1; constructor; [now apply vr_leaf | assumption]. Qed.
+
+Theorem sprintf_leaf_noninterference fuel env f a1 a2 o1 o2 :
+  osane (orc env) -> no_star f = true -> Forall2 lrel a1 a2 ->
+  sprintf fuel env f a1 = ROk o1 -> sprintf fuel env f a2 = ROk o2 ->
+  forall ops1 ops2, o_log o1 = ops1 ++ [OTake] -> o_log o2 = ops2 ++ [OTake] ->
+  rawok ops1 = true -> ptail_ok_from init ops1 = true -> ptail_ok_from init ops2 = true ->
+  Markers.redact_b (o_bytes o1) = Markers.redact_b (o_bytes o2).
+Proof. intros Ho Hns Ha. apply sprintf_tree_noninterference; auto. now apply lrel_vrel_list. Qed.
+
+Theorem sprint_leaf_noninterference fuel env a1 a2 o1 o2 :
+  osane (orc env) -> Forall2 lrel a1 a2 ->
+  sprint fuel env a1 = ROk o1 -> sprint fuel env a2 = ROk o2 ->
+  forall ops1 ops2, o_log o1 = ops1 ++ [OTake] -> o_log o2 = ops2 ++ [OTake] ->
+  rawok ops1 = true -> ptail_ok_from init ops1 = true -> ptail_ok_from init ops2 = true ->
+  Markers.redact_b (o_bytes o1) = Markers.redact_b (o_bytes o2).
+Proof. intros Ho Ha. apply sprint_tree_noninterference; auto. now apply lrel_vrel_list. Qed.
+Print Assumptions sprintf_leaf_noninterference.
